@@ -115,6 +115,16 @@ static void U1_Del(var self) { u1_destructed++; }
 static void U1_Assign(var self, var obj) { memcpy(self, obj, sizeof(struct U1)); }
 static var U1 = Cello(U1, Instance(New, U1_New, U1_Del), Instance(Assign, U1_Assign));
 
+/* user types whose size is not a multiple of sizeof(var): no instances (assign = memcpy, cmp = memcmp, hash = hash_data) */
+struct S1 { char c; };
+struct S4 { int32_t id; };
+struct S12 { int32_t a, b, c; };
+struct S20 { int32_t a, b, c, d, e; };
+static var S1 = Cello(S1);
+static var S4 = Cello(S4);
+static var S12 = Cello(S12);
+static var S20 = Cello(S20);
+
 static var f_ident(var args) { return args; }
 
 #ifndef CELLO_NGC
@@ -139,12 +149,20 @@ static var type_by_name(const char* s) {
   if (!strcmp(s, "Mutex")) return Mutex;
   if (!strcmp(s, "U0")) return U0;
   if (!strcmp(s, "U1")) return U1;
+  if (!strcmp(s, "S1")) return S1;
+  if (!strcmp(s, "S4")) return S4;
+  if (!strcmp(s, "S12")) return S12;
+  if (!strcmp(s, "S20")) return S20;
   return NULL;
 }
 
 static const char* name_of_type(var t) {
   if (t is U0) return "U0";
   if (t is U1) return "U1";
+  if (t is S1) return "S1";
+  if (t is S4) return "S4";
+  if (t is S12) return "S12";
+  if (t is S20) return "S20";
   return c_str(t);
 }
 
@@ -168,6 +186,11 @@ static var proto(var T, int n) {
   if (T is Function) return new_raw(Function, $(Function, f_ident));
   if (T is U0) { struct U0* u = new_raw(U0); u->a = 11 + n; u->b = 22; return u; }
   if (T is U1) { struct U1* u = new_raw(U1); u->a = 5 + n; return u; }
+  if (T is S1 or T is S4 or T is S12 or T is S20) {
+    unsigned char* u = (unsigned char*)alloc_raw(T);
+    for (size_t i = 0; i < size(T); i++) u[i] = (unsigned char)(0x30 + n + i);     /* first byte distinguishes keys */
+    return u;
+  }
   return NULL;
 }
 
@@ -358,6 +381,11 @@ static void do_op(const char* op, char cls, var e, var T) {
     else if (!strcmp(op, "print_to")) print_to(e, 0, "%i items", $I(5));
   } else if (T is Tuple) {
     if (!strcmp(op, "assign")) assign(e, tuple(P_I4, P_I5, P_I6, P_I7, P_I8));
+    else if (!strcmp(op, "assign_iter")) {
+      /* a source that implements Iter but neither Len nor Get: Tuple_Assign pushes its items one by one */
+      var src = new_raw(Array, Int, $I(1), $I(2), $I(3));
+      assign(e, filter(src, $(Function, f_ident)));
+    }
     else if (!strcmp(op, "resize")) resize(e, 1);
     else if (!strcmp(op, "concat")) concat(e, tuple(P_I4, P_I5));
     else if (!strcmp(op, "append")) append(e, P_I6);
@@ -371,7 +399,7 @@ static void do_op(const char* op, char cls, var e, var T) {
 
 static int op_applicable(const char* op, var T) {
   static const char* s_ops[] = {"assign", "resize", "concat", "append", "print_to", NULL};
-  static const char* t_ops[] = {"assign", "resize", "concat", "append", "push", "pop", "push_at", "pop_at", "rem", NULL};
+  static const char* t_ops[] = {"assign", "assign_iter", "resize", "concat", "append", "push", "pop", "push_at", "pop_at", "rem", NULL};
   if (!strcmp(op, "sweep") || !strcmp(op, "del_stopped")) {
 #ifdef CELLO_NGC
     return 0;
@@ -479,6 +507,20 @@ static void run_case(char* line) {
     T is Tuple ? st_tuple : T is Function ? st_func : T is U0 ? st_u0 : T is U1 ? st_u1 :
     T is Box ? st_box : T is Range ? st_range : T is File ? st_file : NULL;
   /* (struct Array, List, Table, Tree are private to their .c files: no stack form exists) */
+  /* an object of class AllocStatic, set up the way a custom allocator would (header_init is public): same body
+     as the stack form, String/Tuple buffers in static arrays */
+  static var so_words[(sizeof(struct Header) + 64) / sizeof(var)];
+  char* so_block = (char*)so_words;
+  static char so_chars[64];
+  static var so_items[8];
+  var so_obj = NULL;
+  if (st_obj && size(T) <= 64) {
+    memset(so_block, 0, sizeof so_words);
+    so_obj = header_init(so_block, T, AllocStatic);
+    memcpy(so_obj, st_obj, size(T));
+    if (T is String) { strcpy(so_chars, "a string in static storage, writable"); ((struct String*)so_obj)->val = so_chars; }
+    if (T is Tuple) { so_items[0] = P_I1; so_items[1] = P_I2; so_items[2] = P_I3; so_items[3] = Terminal; ((struct Tuple*)so_obj)->items = so_items; }
+  }
   var tp_stack = tuple(st_obj, P_I1);
   var tp_other = NULL;
 
@@ -491,6 +533,7 @@ static void run_case(char* line) {
     else if (!strcmp(pk, "alloc_root")) e = alloc_root(T);
     else if (!strcmp(pk, "copy")) e = copy(proto(T, 0));
     else if (!strcmp(pk, "stack")) e = st_obj;
+    else if (!strcmp(pk, "static_obj")) e = so_obj;
     else if (!strcmp(pk, "static")) e = !strcmp(pa, "b") ? String : U0;
     else if (!strcmp(pk, "rtype")) e = new_raw_with(Type, ctor_args(Type));
     else if (!strcmp(pk, "get")) {
